@@ -378,8 +378,14 @@ def handle_jac(c):
         if not same_c:
             return {'res': '__none__', 'ok': False, 'sig': 'state-colored:' + sig, 'kind': kind,
                     'msg': 'inputs/outputs/residuals differ bitwise after the coloured approximation'}
-        if Jc.tobytes() != J.tobytes() and not np.array_equal(Jc, J):
-            ij = np.argwhere(Jc != J)[0]
+        # The colouring drops entries whose magnitude is below its sparsity tolerance (1e-25 relative to the largest
+        # entry): an entry that is zero in exact arithmetic but carries approximation noise (e.g. the O(h^2) term
+        # -5e-41 of a complex step with h = 1e-20) is exactly 0 coloured and noise uncoloured.  Everything above that
+        # floor must be identical.
+        floor = 1e-22 * max(1.0, float(np.max(np.abs(J))) if J.size else 1.0)
+        differs = (Jc != J) & ~((np.abs(Jc) <= floor) & (np.abs(J) <= floor))
+        if np.any(differs):
+            ij = np.argwhere(differs)[0]
             return {'res': '__none__', 'ok': False, 'sig': 'colored:' + sig, 'kind': kind,
                     'msg': 'coloured J[%d,%d] = %r, uncoloured %r' % (ij[0], ij[1], Jc[tuple(ij)], J[tuple(ij)])}
         if groups is not None:
